@@ -275,12 +275,19 @@ def coq_closure(prop):
     return seen
 
 
-def coq_chk(prop, timeout=1800):
+def coq_chk(prop, timeout=5400):
     """Independent re-check of the property's compiled closure with coqchk; returns
-    (ok, summary dict).  ok requires: no axioms, nothing relying on type-in-type, unsafe
-    fixpoints or assumed positivity."""
+    (status, summary dict) with status "ok" | "failed" | "timeout".  ok requires: no axioms,
+    nothing relying on type-in-type, unsafe fixpoints or assumed positivity.  The compiled
+    files are copied under the lock and checked from the copy, so that the (long) re-check
+    does not block other builds; a timeout is inconclusive (recorded), not a failed re-check."""
+    d = os.path.join(BUILD, "chk", "%s.%d" % (prop, os.getpid()))
+    shutil.rmtree(d, ignore_errors=True)
+    os.makedirs(d, exist_ok=True)
     with Lock("coq"):
-        rc, out = sh(["coqchk", "-o", "-silent", "-Q", COQ, "NS", "NS.Properties.%s" % prop], timeout=timeout)
+        sh(["rsync", "-a", "--include=*/", "--include=*.vo", "--exclude=*", COQ + "/", d + "/"], timeout=600)
+    rc, out = sh(["coqchk", "-o", "-silent", "-Q", d, "NS", "NS.Properties.%s" % prop], timeout=timeout)
+    shutil.rmtree(d, ignore_errors=True)
     summ = {}
     cur = None
     for line in out.splitlines():
@@ -290,8 +297,10 @@ def coq_chk(prop, timeout=1800):
             summ[cur] = [m.group(2).strip()] if m.group(2).strip() else []
         elif cur and line.strip() and not line.strip().startswith("*"):
             summ[cur].append(line.strip())
+    if rc == 124:
+        return "timeout", {"rc": rc, "summary": summ, "note": "coqchk did not finish within %d s (inconclusive)" % timeout}
     ok = rc == 0 and len(summ) == 4 and all(v == ["<none>"] for v in summ.values())
-    return ok, {"rc": rc, "summary": summ, "tail": out[-400:] if not ok else ""}
+    return ("ok" if ok else "failed"), {"rc": rc, "summary": summ, "tail": out[-400:] if not ok else ""}
 
 
 def grep_forbidden(prop=None):
